@@ -27,19 +27,28 @@ class InjectedFault(Exception):
 
 
 class Cloud:
-    """cloudf callback: raises for the event whose latitude encodes index `fail` (1-based, 0 = never);
-    optionally sleeps a schedule-dependent number of microseconds to shake thread interleavings."""
+    """cloudf callback: raises for the events whose latitude encodes an index in `fail` (1-based); otherwise returns an
+    event-dependent cloud top (mostly none, sometimes a finite altitude, NaN or +inf: whatever the callback returns, the
+    batch must agree with one-at-a-time evaluation under the same callback); optionally sleeps a schedule-dependent
+    number of microseconds to shake thread interleavings."""
 
-    def __init__(self, fail=0, shake=0):
-        self.fail = fail
+    def __init__(self, fail=(), shake=0):
+        self.fail = frozenset([fail] if isinstance(fail, int) else fail) - {0}
         self.shake = shake
 
     def __call__(self, lat, long):
         i = int(round(float(lat) * 1000.0)) + 1
         if self.shake:
             time.sleep(((i * 2654435761 + self.shake) % 97) * 2e-6)
-        if i == self.fail:
+        if i in self.fail:
             raise InjectedFault(f"event {i}")
+        r = (i * 7919) % 23
+        if r == 0:
+            return float("nan")
+        if r == 1:
+            return np.inf
+        if r in (2, 3):
+            return 1.0 + 0.5 * r
         return -np.inf
 
 
@@ -94,11 +103,18 @@ class Oracle:
     def __init__(self, CphotAng, inputs, det_alt=525.0):
         beta, alt, E, lat, lon = inputs
         self.keys = []
+        self.raises = set()          # events whose one-at-a-time evaluation raises (or returns no result)
         for i in range(len(beta)):
             c = CphotAng(det_alt)
-            with daskkit.scheduler_ctx("synchronous"):
-                d, a = c(beta[i:i + 1], alt[i:i + 1], E[i:i + 1], lat[i:i + 1], lon[i:i + 1], Cloud())
-            self.keys.append(_key(d[0], a[0]))
+            try:
+                with daskkit.scheduler_ctx("synchronous"):
+                    d, a = c(beta[i:i + 1], alt[i:i + 1], E[i:i + 1], lat[i:i + 1], lon[i:i + 1], Cloud())
+                if len(np.atleast_1d(d)) != 1 or len(np.atleast_1d(a)) != 1:
+                    raise ValueError("no result for a single event")
+                self.keys.append(_key(np.atleast_1d(d)[0], np.atleast_1d(a)[0]))
+            except Exception:
+                self.raises.add(i + 1)
+                self.keys.append(b"<raises %d>" % i)
         self.index = {}
         for i, k in enumerate(self.keys):
             self.index.setdefault(k, i + 1)
@@ -173,7 +189,8 @@ def execute(CphotAng, inputs, oracle, mode, fail=0, W=1, steps=None, order=None,
     # dask's multi-process scheduler hands tasks out in batches of `chunksize` (default 6) per worker, so
     # the number of partitions taken and not yet finished is bounded by workers x 6, not by workers
     cap = int(W) * 6 if mode == "processes" else int(W)
-    ev = [{"kind": "Begin", "N": n, "PSize": int(psize), "W": cap, "FailAt": int(fail)}]
+    failset = sorted((set([fail] if isinstance(fail, int) else fail) - {0}) | set(oracle.raises))
+    ev = [{"kind": "Begin", "N": n, "PSize": int(psize), "W": cap, "Fail": [int(x) for x in failset]}]
     for k, p, r in log.events:
         if k == "Start":
             ev.append({"kind": "Start", "p": p + 1})
@@ -195,7 +212,7 @@ def execute(CphotAng, inputs, oracle, mode, fail=0, W=1, steps=None, order=None,
         ev.append({"kind": "Raised", "exc": type(raised).__name__})
     ev.append({"kind": "Kernel", "same": before == after})
     ev.append({"kind": "End", "raised": raised is not None})
-    meta = {"mode": mode, "N": n, "W": W, "FailAt": fail, "steps": steps, "order": order, "psize_override": psize_override,
+    meta = {"mode": mode, "N": n, "W": W, "Fail": failset, "steps": steps, "order": order, "psize_override": psize_override,
             "raised": None if raised is None else repr(raised)[:200]}
     for e in ev:
         e["_m"] = dict(meta, kind=e["kind"], p=e.get("p"))
@@ -222,7 +239,7 @@ def behaviours_from_tlc(pr):
         if any(k == "Fail" for k, _ in steps):
             cut = [i for i, (k, _) in enumerate(steps) if k == "Fail"][0]
             steps = steps[:cut + 1]
-        scripts.add(((cfg["N"], cfg["PSize"], cfg["W"], cfg["FailAt"]), tuple(steps)))
+        scripts.add(((cfg["N"], cfg["PSize"], cfg["W"], tuple(sorted(cfg["Fail"]))), tuple(steps)))
     import shutil
     shutil.rmtree(tmp, ignore_errors=True)
     return sorted(scripts), len(paths)
@@ -266,10 +283,10 @@ def run(tier="quick", seed=0):
             orc = Oracle(CphotAng, inp)
             P = -(-n // (psz or 100))
             perms = list(itertools.permutations(range(P)))
+            fails = [0, 1, min(n, (psz or 100)), min(n, (psz or 100) + 1), n, (min(n, (psz or 100)), n)]
             if len(perms) > 120:
                 rng = np.random.default_rng(seed)
                 perms = [tuple(rng.permutation(P)) for _ in range(60 if thorough else 12)]
-            fails = [0, 1, min(n, (psz or 100)), min(n, (psz or 100) + 1), n]
             for perm in perms:
                 for fail in (fails if thorough or perm in (perms[0], perms[-1]) else [0]):
                     traces.append(execute(CphotAng, inp, orc, "ordered", fail, 1, order=list(perm), psize_override=psz))
